@@ -17,7 +17,7 @@ def run(ctx):
         fams, nb, seeds, par = ["SnapQuick", "SnapBaseQuick", "SnapReuse", "SnapLimitQuick", "ChainSnapQuick", "Api"], 60, 1, 6
         more_b = [("chainsnap", 4), ("api", 30)]
     else:
-        fams, nb, seeds, par = ["SnapThorough", "SnapBaseThorough", "SnapReuse", "SnapLimitThoroughA", "SnapLimitThoroughB", "ChainSnapThorough", "Api"], 400, 6, 8
+        fams, nb, seeds, par = ["SnapThorough", "SnapBaseThorough", "SnapReuse", "SnapLimitThoroughA", "SnapLimitThoroughB", "ChainSnapQuick", "Api"], 400, 6, 8
         more_b = [("chainsnap", 30), ("api", 300)]
     paths = snapalg.run_all(ctx, run_, binp, fams, fams, "snap", nb, seeds=seeds, par=par,
                             law_workers=2 if ctx.tier == "quick" else 4, more_b=more_b)
